@@ -163,6 +163,7 @@ fn must_accept() {
         "export const LSchema: z.ZodType<L> = z.lazy(() => z.object({ next: LSchema.optional() }));",
         "function g() { return listen<types.User | null>('a:b/c', (event) => { handler(event.payload); }); }",
         "export * from './types';",
+        "interface I { a; b?, c }",
         "import { listen, type UnlistenFn, type Event } from '@tauri-apps/api/event';",
         "import * as types from './types';",
         "type F = (payload: [string, number][]) => void;",
@@ -380,7 +381,6 @@ fn must_be_unsupported() {
         "interface I { get x(): number; }",
         "interface I { (a: string): void; }",
         "interface I { new (a: string): I; }",
-        "interface I { a; }",
         "interface I { m() }",
         "interface I { [Symbol.iterator]: string }",
         "const m = import('./m');",
